@@ -39,6 +39,8 @@ TRUSTED = [
     "single-byte damage CPython's pickle also raises MemoryError and its marshal SystemError/MemoryError, segfaults or hangs: "
     "such cases are counted as outside the contract and not judged)",
     "SHA-1 of source / of name|filename injective; os.replace atomic; NamedTemporaryFile returns a fresh name",
+    "file-system errors are injected by substituting tempfile / os / open inside the bccache module only; the model's answer for "
+    "load-read (propagates) and remove_silent (OSError swallowed) is by hand, the translator only checks remove_silent's shape",
     "the exception-class table Model.mroOf (compared with the interpreter's __mro__ on every run)",
 ]
 ASSUMPTIONS = [
@@ -78,11 +80,21 @@ CLAIM = dict(
          "case, line order, with keep_trailing_newline on and off, judged against a cache-less compile; the injectivity hypothesis on "
          "the checksum is validated on these edit classes: load_shape re-proves that get_source_checksum is SHA-1 of the whole "
          "unmodified source, and every pair of ~32 such variants of 6 sources must have distinct checksums (C27:checksum:collision); "
-         "7 option pairs sharing a directory.",
+         "7 option pairs sharing a directory. File-system errors: replace_oserror_is_miss / no_replace_escapes - for EVERY exception with "
+         "OSError among its bases a failing os.replace leaves dump_bytecode normally with the old entry and no temporary (handlers read "
+         "from the source); open_obstacles_are_misses - a missing entry, a directory at the entry's path, an unreadable entry are misses "
+         "in load_bytecode. Tie: 15 OSError classes/errnos (+KeyboardInterrupt) injected into get_template at every file operation of "
+         "the cache (open, read, temporary creation, each write, close, replace, remove) with the entry absent/old, os.remove in clear(), "
+         "and real obstacles through the public API (directory / dangling symlink / symlink loop at the entry's path, cache directory "
+         "missing or a regular file; read-only directory and unreadable entry when not root), compared with the transcription (model over the handlers read from the source; a difference "
+         "is reported as C27:fs-fault:model-drift, correspondence only), and judged by the property only in what follows the fault: the "
+         "next fault-free load renders the current source and no temporary stays where the model removes it.",
     note="Trusted: Lean kernel; translator; hand model tied by correspondence; decoder contracts, SHA-1 injectivity, rename "
          "atomicity assumed. Outside the decoder contract (not judged): MemoryError / SystemError from pickle or marshal on damaged "
          "bytes, and CPython crashing or hanging in marshal.load. Freshness across different configurations is false (F10a, known "
-         "finding). F10b (unguarded pickle.load) is fixed in b3991f5; every truncation offset and byte damage is still probed. Exceptions injected into the write path propagate by design (docstring of "
+         "finding). F10b (unguarded pickle.load) is fixed in b3991f5; every truncation offset and byte damage is still probed. Outside the property: what get_template does when the file system answers a cache operation with an OSError (open other "
+         "than the three listed classes, read, creating/writing/closing the temporary propagate; dump_bytecode is documented to raise) - "
+         "transcribed and pinned, not judged. Exceptions injected into the write path propagate by design (docstring of "
          "BytecodeCache.dump_bytecode) and are compared with the model, not judged.",
     design_ref="§5 C27",
 )
@@ -604,6 +616,407 @@ def run_write_path(ctx, res, jinja2, root, stats):
 
 
 # ------------------------------------------------------------------------------------------------------------------
+# (b2) failing file operations while a template is loaded (get_template end to end), and real obstacles
+# ------------------------------------------------------------------------------------------------------------------
+
+def fs_exceptions():
+    """every OSError class / errno a file operation of the cache can meet, plus one exception that is not the cache's"""
+    E = errno
+    mk = [("FileNotFoundError", lambda: FileNotFoundError(E.ENOENT, "injected")),
+          ("PermissionError", lambda: PermissionError(E.EACCES, "injected")),
+          ("IsADirectoryError", lambda: IsADirectoryError(E.EISDIR, "injected")),
+          ("NotADirectoryError", lambda: NotADirectoryError(E.ENOTDIR, "injected")),
+          ("FileExistsError", lambda: FileExistsError(E.EEXIST, "injected")),
+          ("BlockingIOError", lambda: BlockingIOError(E.EAGAIN, "injected")),
+          ("TimeoutError", lambda: TimeoutError(E.ETIMEDOUT, "injected"))]
+    for name in ("EXDEV", "EIO", "ENOSPC", "EROFS", "ENAMETOOLONG", "EINTR", "EBUSY", "ENOTEMPTY"):
+        mk.append((f"OSError[{name}]", lambda n=name: OSError(getattr(E, n), "injected")))
+    mk.append(("KeyboardInterrupt", lambda: KeyboardInterrupt()))
+    return mk
+
+
+class ReadProxy:
+    def __init__(self, real, plan):
+        self._r, self._plan = real, plan
+
+    def read(self, *a):
+        self._plan("load-read", 0)
+        return self._r.read(*a)
+
+    def readline(self, *a):
+        self._plan("load-read", 0)
+        return self._r.readline(*a)
+
+    def __enter__(self):
+        return self
+
+    def __exit__(self, *a):
+        return self._r.__exit__(*a)
+
+
+class Instrumented:
+    """substitutes, inside the bccache module only, tempfile / os / open by versions that call plan(event, k) first:
+    load-open, load-read, create, write k, close, replace, remove, listdir"""
+
+    def __init__(self, mod, plan):
+        self.mod, self.plan = mod, plan
+
+    def __enter__(self):
+        plan = self.plan
+        real_ntf = tempfile.NamedTemporaryFile
+
+        def fplan(event, k, proxy):
+            if event in ("write", "close"):
+                plan(event, k)
+
+        class T:
+            @staticmethod
+            def NamedTemporaryFile(*a, **kw):
+                plan("create", 0)
+                return FileProxy(real_ntf(*a, **kw), fplan)
+
+            def __getattr__(self, n):
+                return getattr(tempfile, n)
+
+        class O:
+            @staticmethod
+            def replace(a, b):
+                plan("replace", 0)
+                return os.replace(a, b)
+
+            @staticmethod
+            def remove(a):
+                plan("remove", 0)
+                return os.remove(a)
+
+            @staticmethod
+            def listdir(a):
+                plan("listdir", 0)
+                return os.listdir(a)
+
+            def __getattr__(self, n):
+                return getattr(os, n)
+
+        def opener(file, mode="r", *a, **kw):
+            if "w" in mode or "a" in mode or "x" in mode:
+                plan("create", 0)
+                return FileProxy(open(file, mode, *a, **kw), fplan)
+            plan("load-open", 0)
+            return ReadProxy(open(file, mode, *a, **kw), plan)
+
+        self.mod.tempfile, self.mod.os, self.mod.open = T(), O(), opener
+        return self
+
+    def __exit__(self, *a):
+        self.mod.tempfile, self.mod.os = tempfile, os
+        del self.mod.open
+
+
+def site_of(exc, bc_file):
+    """which cache file operation an exception that left get_template came from (from the traceback)"""
+    import linecache
+    import traceback
+    site = "?"
+    for fr, ln in traceback.walk_tb(exc.__traceback__):
+        if fr.f_code.co_filename != bc_file:
+            continue
+        line = linecache.getline(bc_file, ln)
+        fn = fr.f_code.co_name
+        if fn == "load_bytecode":
+            site = "load-open" if "open(" in line else "load-read"
+        elif fn == "dump_bytecode":
+            site = "tmp-create" if "NamedTemporaryFile" in line or site == "?" and "tempfile" in line else \
+                "replace" if "replace" in line else "remove" if "remove" in line else "write"
+        elif fn == "remove_silent":
+            site = "remove"
+    return site
+
+
+OBSTACLE_FAULTS = {
+    # obstacle -> the OSErrors the operating system answers with, in the order the cache meets them
+    "directory-at-entry-path": [("load-open", "IsADirectoryError"), ("replace", "IsADirectoryError")],
+    "dangling-symlink-at-entry-path": [("load-open", "FileNotFoundError")],
+    "symlink-loop-at-entry-path": [("load-open", "OSError")],
+    "cache-directory-missing": [("load-open", "FileNotFoundError"), ("create", "FileNotFoundError")],
+    "cache-directory-is-a-file": [("load-open", "NotADirectoryError")],
+    "read-only-cache-directory": [("load-open", "FileNotFoundError"), ("create", "PermissionError")],
+    "unreadable-entry": [("load-open", "PermissionError")],
+}
+
+
+def run_fs_obstacles(ctx, res, jinja2, root, stats, ref, src_old, src_new, seen):
+    import builtins
+    bc = jinja2.bccache
+    # real obstacles, public API only
+    is_root = hasattr(os, "geteuid") and os.geteuid() == 0
+    obstacles = ["directory-at-entry-path", "dangling-symlink-at-entry-path", "symlink-loop-at-entry-path",
+                 "cache-directory-missing", "cache-directory-is-a-file", "read-only-cache-directory", "unreadable-entry"]
+    ob_out = {}
+    for ob in obstacles:
+        d = tempfile.mkdtemp(dir=root)
+        try:
+            cdir = d
+            probe = jinja2.FileSystemBytecodeCache(d)
+            entry = os.path.join(d, probe.pattern % (probe.get_cache_key(NAME, None),))
+            undo = None
+            if ob == "directory-at-entry-path":
+                os.mkdir(entry)
+            elif ob == "dangling-symlink-at-entry-path":
+                os.symlink(os.path.join(d, "nowhere"), entry)
+            elif ob == "symlink-loop-at-entry-path":
+                os.symlink(entry, entry)
+            elif ob == "cache-directory-missing":
+                cdir = os.path.join(d, "gone")
+            elif ob == "cache-directory-is-a-file":
+                cdir = os.path.join(d, "file")
+                open(cdir, "w").close()
+            elif ob in ("read-only-cache-directory", "unreadable-entry"):
+                if is_root:
+                    ob_out[ob] = "skipped: running as root, permissions are not enforced"
+                    continue
+                if ob == "unreadable-entry":
+                    open(entry, "wb").close()
+                    os.chmod(entry, 0)
+                else:
+                    os.chmod(d, 0o555)
+                    undo = lambda d=d: os.chmod(d, 0o755)
+            mapping = {NAME: src_old}
+
+            def mkenv():
+                return jinja2.Environment(loader=jinja2.DictLoader(mapping), bytecode_cache=jinja2.FileSystemBytecodeCache(cdir),
+                                          cache_size=0)
+            results = []
+            try:
+                for step, src in (("first load", src_old), ("load after the source changed", src_new), ("load in a fresh environment", src_new)):
+                    mapping[NAME] = src
+                    try:
+                        out = mkenv().get_template(NAME).render(x="<", items=[1])
+                        results.append((step, None, None, out == ref(src)))
+                    except BaseException as e:  # noqa
+                        results.append((step, type(e).__name__, site_of(e, bc.__file__), False))
+            finally:
+                if undo:
+                    undo()
+            seen.add(("obstacle", ob))
+            # the transcription's answer: the first of the file-system errors this obstacle produces that the handlers read
+            # from the source let through
+            expect = None
+            for site, cls in OBSTACLE_FAULTS[ob]:
+                m = [k.__name__ for k in getattr(builtins, cls).__mro__ if k is not object]
+                if site == "load-open":
+                    prop = canon(core.driver_batch([[Atom("bc-open-fault")] + m])[0][1])[0] == "raises"
+                else:
+                    f = {"create": [Atom("create")] + m, "replace": [Atom("replace")] + m}[site]
+                    prop = canon(core.driver_batch([[Atom("bc-fault"), f, "e", "R", [], [[2]]]])[0][1][2])[0] == "raise"
+                if prop:
+                    expect = (cls, {"create": "tmp-create"}.get(site, site))
+                    break
+            got = [(r[1], r[2]) if r[1] else ("renders" if r[3] else "renders something else") for r in results]
+            want = [expect if expect else "renders"] * len(results)
+            ob_out[ob] = {"real": [list(g) if isinstance(g, tuple) else g for g in got],
+                          "model": list(expect) if expect else "miss, renders the current source"}
+            if got != want:
+                stats.setdefault("fs_fault_drift", []).append({"obstacle": ob, "real": ob_out[ob]["real"], "model": ob_out[ob]["model"]})
+                res.violate(f"C27:fs-fault:model-drift:obstacle:{ob}",
+                            f"with a {ob.replace('-', ' ')} (public API only) get_template gives {ob_out[ob]['real']}; the model over the "
+                            f"handlers read from bccache.py says: {ob_out[ob]['model']}",
+                            {"layer": "fs-obstacle", "obstacle": ob}, no_input=True)
+            # the property: once the obstacle is gone, the next load renders the current source
+            try:
+                if ob in ("directory-at-entry-path",):
+                    os.rmdir(entry)
+                elif ob.endswith("symlink-at-entry-path") or ob == "symlink-loop-at-entry-path" or ob == "unreadable-entry":
+                    os.unlink(entry)
+                elif ob == "cache-directory-missing":
+                    os.mkdir(cdir)
+                elif ob == "cache-directory-is-a-file":
+                    os.unlink(cdir)
+                    os.mkdir(cdir)
+                later = mkenv().get_template(NAME).render(x="<", items=[1])
+                again = mkenv().get_template(NAME).render(x="<", items=[1])
+                ok = later == ref(src_new) and again == ref(src_new)
+                why = f"renders {later!r} / {again!r}"
+            except BaseException as e:  # noqa
+                ok, why = False, f"raises {type(e).__name__}"
+            if not ok:
+                res.violate(f"C27:fs-fault:later-load:obstacle:{ob}",
+                            f"after the {ob.replace('-', ' ')} was removed, get_template {why}; expected {ref(src_new)!r}",
+                            {"layer": "fs-obstacle", "obstacle": ob})
+        finally:
+            shutil.rmtree(d, ignore_errors=True)
+    stats["fs_obstacles"] = ob_out
+
+
+def run_fs_faults(ctx, res, jinja2, root, stats):
+    bc = jinja2.bccache
+    reference = {}
+
+    def ref(src):
+        if src not in reference:
+            reference[src] = jinja2.Environment().from_string(src).render(x="<", items=[1])
+        return reference[src]
+
+    src_old, src_new = SOURCES[0].format(v=0), SOURCES[0].format(v=1)
+    seen = set()
+    run_fs_obstacles(ctx, res, jinja2, root, stats, ref, src_old, src_new, seen)     # first: a public-API replay is the better one
+    excs = fs_exceptions()
+    n_writes = stats.get("write_path_write_calls", 3)
+    sites = [("load-open", 0), ("load-read", 0), ("create", 0)] + [("write", k) for k in range(n_writes)] + \
+            [("close", 0), ("replace", 0), ("remove", 0)]
+    site_name = {"create": "tmp-create"}
+    cases = []
+    for prior in ("absent", "old"):
+        for site, arg in sites:
+            for label, make in excs:
+                cases.append((prior, site, arg, label, make))
+    # what the model (handlers read from the source) says leaves get_template
+    reqs = []
+    for prior, site, arg, label, make in cases:
+        m = mro(make())
+        if site == "load-open":
+            reqs.append([Atom("bc-open-fault")] + m)
+        elif site in ("create", "write", "close", "replace"):
+            f = {"create": [Atom("create")] + m, "write": [Atom("write"), arg] + m, "close": [Atom("write"), n_writes] + m,
+                 "replace": [Atom("replace")] + m}[site]
+            reqs.append([Atom("bc-fault"), f, "e", "R", [], [[2 + j] for j in range(n_writes)]])
+        elif site == "remove":      # reached through a rename that fails with OSError(EXDEV)
+            reqs.append([Atom("bc-fault"), [Atom("replace")] + mro(OSError(errno.EXDEV, "x")), "e", "R", [], [[2 + j] for j in range(n_writes)]])
+        else:
+            reqs.append([Atom("ping"), 1])
+    reps = core.driver_batch(reqs)
+    observed = []
+    for (prior, site, arg, label, make), rep in zip(cases, reps):
+        d = tempfile.mkdtemp(dir=root)
+        try:
+            cache = jinja2.FileSystemBytecodeCache(d)
+            mapping = {NAME: src_old}
+
+            def mkenv():
+                return jinja2.Environment(loader=jinja2.DictLoader(mapping), bytecode_cache=jinja2.FileSystemBytecodeCache(d),
+                                          cache_size=0)
+            if prior == "old":
+                mkenv().get_template(NAME)
+            mapping[NAME] = src_new
+            fired = []
+
+            def plan(ev, k, site=site, arg=arg, make=make):
+                if site == "remove":
+                    if ev == "replace" and not fired:
+                        fired.append("replace")
+                        raise OSError(errno.EXDEV, "injected")
+                    if ev == "remove" and fired == ["replace"]:
+                        fired.append("remove")
+                        raise make()
+                elif ev == site and (site != "write" or k == arg) and not fired:
+                    fired.append(ev)
+                    raise make()
+            raised, out = None, None
+            with Instrumented(bc, plan):
+                try:
+                    out = mkenv().get_template(NAME).render(x="<", items=[1])
+                except BaseException as e:  # noqa
+                    raised = mro(e)
+            reached = bool(fired) and (site != "remove" or fired == ["replace", "remove"])
+            # afterwards, without faults: a fresh environment must serve the current source, no temporary may stay
+            after_raised, after_out = None, None
+            try:
+                after_out = mkenv().get_template(NAME).render(x="<", items=[1])
+            except BaseException as e:  # noqa
+                after_raised = mro(e)
+            leftovers = [fn for fn in os.listdir(d) if fn.endswith(".tmp")]
+            observed.append((prior, site, arg, label, mro(make()), rep, reached, raised, out, after_raised, after_out, leftovers))
+        finally:
+            shutil.rmtree(d, ignore_errors=True)
+    judged = [o for o in observed if o[6]]
+    dist = {}
+    drift = stats.setdefault("fs_fault_drift", [])
+    for o in judged:
+        prior, site, arg, label, m, rep, _, raised, out, after_raised, after_out, leftovers = o
+        sname = site_name.get(site, site)
+        seen.add((prior, site, arg, label))
+        # what the transcription (Lean model over the handler table read from bccache.py) says happens today at this site
+        model_tmp_left = False
+        if site == "load-open":
+            model_prop = canon(rep[1])[0] == "raises"
+        elif site in ("create", "write", "close", "replace"):
+            model_prop = canon(rep[1][2])[0] == "raise"
+            model_tmp_left = any(n == str(rep[1][1]) for n, _b in canon(rep[1][0]))
+        elif site == "load-read":
+            model_prop = True                       # no handler around f.read / the decoders' reads catches an OSError
+        else:
+            # remove_silent: except OSError: pass (shape checked by the translator); the failed rename that led here
+            # propagates or not as the model says
+            model_prop = "OSError" not in m or canon(rep[1][2])[0] == "raise"
+            model_tmp_left = True                   # the removal itself failed
+        stats.setdefault("_fs_real", {})[(sname, m[0])] = raised[0] if raised else "miss"
+        k = f"{sname}/{'propagates' if raised else 'miss'}"
+        dist[k] = dist.get(k, 0) + 1
+        replay = {"layer": "fs-fault", "prior": prior, "site": site, "arg": arg, "exception": label}
+        # (i) transcription: real behaviour at the faulty load = the model's; a difference is drift, not a property violation
+        if (raised is not None) != model_prop or (raised is None and out != ref(src_new)):
+            drift.append({"site": sname, "exception": label, "prior": prior, "real": raised[0] if raised else f"renders {out!r}",
+                          "model": "propagates" if model_prop else "miss, renders the current source"})
+            res.violate(f"C27:fs-fault:model-drift:{sname}",
+                        f"{label} at the cache's {sname} (entry {prior}): get_template {'raises ' + raised[0] if raised else 'returns, rendering ' + repr(out)}; "
+                        f"the model over the handlers read from bccache.py says it {'propagates' if model_prop else 'is a miss'}", replay,
+                        no_input=True)
+        # (ii) the property: whatever the fault did, the NEXT fault-free load sees a miss or the current entry
+        if after_raised is not None or after_out != ref(src_new):
+            res.violate(f"C27:fs-fault:later-load:{sname}",
+                        f"after {label} at the cache's {sname} (prior entry {prior}) a later, fault-free get_template "
+                        f"{'raises ' + after_raised[0] if after_raised else 'renders ' + repr(after_out)}; expected {ref(src_new)!r}", replay)
+        if bool(leftovers) and not model_tmp_left:
+            res.violate(f"C27:fs-fault:leftover-tmp:{sname}",
+                        f"{label} at the cache's {sname} leaves {leftovers} in the cache directory; the model removes the temporary", replay)
+    stats["fs_fault_cases"] = len(cases)
+    stats["fs_fault_reached"] = len(judged)
+    stats["fs_fault_outcomes"] = dict(sorted(dist.items()))
+
+    # clear(): removal errors are swallowed, a later load is correct
+    clear_cases = 0
+    for label, make in excs:
+        d = tempfile.mkdtemp(dir=root)
+        try:
+            mapping = {NAME: src_new}
+            env = jinja2.Environment(loader=jinja2.DictLoader(mapping), bytecode_cache=jinja2.FileSystemBytecodeCache(d), cache_size=0)
+            env.get_template(NAME)
+            real_remove = os.remove
+            hit = []
+
+            def bad_remove(path, make=make):
+                hit.append(path)
+                raise make()
+            os.remove = bad_remove
+            try:
+                exc = None
+                try:
+                    env.bytecode_cache.clear()
+                except BaseException as e:  # noqa
+                    exc = e
+            finally:
+                os.remove = real_remove
+            clear_cases += 1
+            seen.add(("clear-remove", label))
+            is_os = isinstance(make(), OSError)
+            if hit and (exc is not None) == is_os:
+                res.violate("C27:fs-fault:model-drift:clear-remove",
+                            f"FileSystemBytecodeCache.clear() {'raises' if exc else 'swallows'} {label} from os.remove", {"layer": "fs-fault",
+                            "site": "clear-remove", "exception": label}, no_input=True)
+            try:
+                ok = env.get_template(NAME).render(x="<", items=[1]) == ref(src_new)
+            except BaseException:  # noqa
+                ok = False
+            if not ok:
+                res.violate("C27:fs-fault:later-load:clear-remove", f"after clear() met {label} a load no longer renders the current source",
+                            {"layer": "fs-fault", "site": "clear-remove", "exception": label})
+        finally:
+            shutil.rmtree(d, ignore_errors=True)
+    stats["fs_fault_clear_cases"] = clear_cases
+
+    return seen
+
+
+# ------------------------------------------------------------------------------------------------------------------
 # (c) histories
 # ------------------------------------------------------------------------------------------------------------------
 
@@ -1044,8 +1457,53 @@ def check_tables(res, jinja2):
         real = [c.__name__ for c in k.__mro__ if c is not object] if k else None
         if real != m:
             res.violate("C27:class-table:" + cls, f"Model.mroOf {cls} = {m}, the interpreter says {real}", {}, no_input=True)
-    return {"decoder_sites": sites, "pickle_contract": rep[2], "marshal_contract": rep[3], "fs_open_caught": rep[4],
+    esc = canon(core.driver_batch([[Atom("bc-escapes")]])[0][1])
+    for cls, m in esc[2]:
+        k = getattr(builtins, cls, None)
+        real = [c.__name__ for c in k.__mro__ if c is not object] if k else None
+        if real != m:
+            res.violate("C27:class-table:" + cls, f"Model.mroOf {cls} = {m}, the interpreter says {real}", {}, no_input=True)
+    return {"oserror_classes_escaping_the_rename": esc[0], "oserror_classes_escaping_open_in_load": esc[1], "decoder_sites": sites, "pickle_contract": rep[2], "marshal_contract": rep[3], "fs_open_caught": rep[4],
             "tmp_well_formed": rep[5], "key_inputs": rep[6], "checksum_inputs": rep[7]}
+
+
+def attach_changed_behaviour(ctx, res, stats):
+    """the proofs that pin today's handlers no longer check (or the translator refused): name, inside the tie violation's
+    replay, the first site/class whose behaviour changed against those pinned facts, with what the real code does now -
+    as 'behaviour that changed', not as a failing input of the property"""
+    known_now = {k["key"] for k in core.load_known() if k.get("property") == ID and k.get("kind") == "known"}
+    if not (ctx.proof_broken or ctx.tie_broken) or any(not v.no_input and v.key not in known_now for v in res.violations):
+        return
+    real = stats.get("_fs_real", {})
+    changed = []
+    try:
+        esc = canon(core.driver_batch([[Atom("bc-escapes")]])[0][1])
+        for cls in esc[0]:
+            item = {"site": "os.replace in FileSystemBytecodeCache.dump_bytecode", "exception": cls,
+                    "pinned by": "replace_oserror_is_miss / no_replace_escapes / fs_fault_safe",
+                    "before": "swallowed: get_template returns, old entry kept, temporary removed",
+                    "model now": "the temporary is removed and the exception leaves dump_bytecode",
+                    "real now": f"get_template: {real.get(('replace', cls), 'not observed')}"}
+            if cls == "IsADirectoryError":
+                item["public API replay"] = ("os.mkdir(join(cache.directory, cache.pattern % cache.get_cache_key(name, filename))); "
+                                             "env.get_template(name): " + str((stats.get("fs_obstacles") or {}).get("directory-at-entry-path")))
+            changed.append(item)
+        for cls in ("FileNotFoundError", "IsADirectoryError", "PermissionError"):
+            if cls in esc[1]:
+                changed.append({"site": "open in FileSystemBytecodeCache.load_bytecode", "exception": cls,
+                                "pinned by": "open_obstacles_are_misses", "before": "a cache miss",
+                                "model now": "leaves get_template", "real now": f"get_template: {real.get(('load-open', cls), 'not observed')}"})
+    except Exception as e:  # noqa
+        changed.append({"error": f"finder failed: {e}"})
+    changed += [{"drift": d} for d in stats.get("fs_fault_drift", [])[:5]]
+    what = "; ".join([f"theorems of {m} no longer check over the regenerated model" for m in ctx.proof_broken] + list(ctx.tie_broken))
+    if changed:
+        first = next((c for c in changed if "public API replay" in c), changed[0])
+        what += (f"; behaviour that changed (not a failing input of the property): {first.get('site')} with {first.get('exception')} - "
+                 f"before: {first.get('before')}; now: {first.get('real now')}"
+                 + (f"; reachable with the public API: {first['public API replay']}" if "public API replay" in first else ""))
+    res.violate("C27:tie", what, {"proof_broken": ctx.proof_broken, "tie_broken": ctx.tie_broken, "gen_changed": ctx.gen_changed,
+                                  "behaviour_that_changed": changed, "notes": res.notes[-3:]}, no_input=True)
 
 
 def run(ctx, res):
@@ -1060,6 +1518,7 @@ def run(ctx, res):
         stats["read_from_source"] = check_tables(res, jinja2)
         s2 = run_write_path(ctx, res, jinja2, root, stats)      # first: forks are cheap while the process is small
         t.append(time.monotonic())
+        s6 = run_fs_faults(ctx, res, jinja2, root, stats)
         s1 = run_unit(ctx, res, jinja2, stats)
         t.append(time.monotonic())
         s3 = run_histories(ctx, res, jinja2, root, stats)
@@ -1070,10 +1529,12 @@ def run(ctx, res):
         stats["section_seconds"] = [round(b - a, 1) for a, b in zip(t, t[1:])]
     finally:
         shutil.rmtree(root, ignore_errors=True)
-    total = stats["unit_cases"] + stats.get("write_path_cases", 0) + stats["histories"] + len(s4) + stats["checksum_pairs"]
+    attach_changed_behaviour(ctx, res, stats)
+    stats.pop("_fs_real", None)
+    total = stats["unit_cases"] + stats.get("write_path_cases", 0) + stats["histories"] + len(s4) + stats["checksum_pairs"] + stats["fs_fault_reached"]
     res.coverage.update({
         "evaluations": total,
-        "distinct_nontrivial": len(s1) + len(s2) + len(s3) + len(s4) + len(s5),
+        "distinct_nontrivial": len(s1) + len(s2) + len(s3) + len(s4) + len(s5) + len(s6),
         "rule": ("(a) for 2-3 real cache entries: the intact entry, EVERY truncation offset, every byte value (thorough, first entry; otherwise 4 "
                  "masks + 3/16 random values) at every offset of magic and pickled checksum, sampled bit flips in the marshalled code "
                  "(forked: CPython may crash), the older version's entry, another template's entry, 7 foreign magics; non-trivial = "
@@ -1118,6 +1579,12 @@ def replay(ctx, case):
             res = core.Result()
             run_shared(ctx, res, jinja2, root, {})
             return {"violations": [[v.key, v.what] for v in res.violations]}
+        if c.get("layer") in ("fs-fault", "fs-obstacle"):
+            res = core.Result()
+            st = {}
+            run_fs_faults(ctx, res, jinja2, root, st)
+            return {"violations": [[v.key, v.what] for v in res.violations], "obstacles": st.get("fs_obstacles"),
+                    "outcomes": st.get("fs_fault_outcomes")}
         if c.get("layer") == "write-path":
             res = core.Result()
             st = {}
